@@ -189,4 +189,6 @@ def check(ctx):
     ctx.include("C09", "C04.R5", only=None)
     ctx.include("C13", "C04.R5", only=None)
     ctx.include("C07", "C04.R5", only=['C07.R3'])
-    ctx.rule("R5", "shared mechanisms, run as obligations of this property: a transformed parameter keeps the model density: transforms are dispatched and wired as C14 demands; tuning state is frozen outside adaptation epochs (C11.R4); the accept/reject step is exact (C05); the proposal corrections are the true density ratios (C06); blockwise composition keeps the state coherent (C09); the Gibbs kernels draw from the full conditional (C13); every transition of a chunk gets its own key and the current epoch state (C07.R3).")
+    ctx.include("C02", "C04.R5", only=['C02.R2'])
+    ctx.include("C01", "C04.R5", only=['C01.R6'])
+    ctx.rule("R5", "shared mechanisms, run as obligations of this property: the target density the kernels read is the plain sum of all log-density terms (a NaN or -inf term stays one) (C02.R2); a targeted refresh of the density reaches every ancestor, also through `at` (C01.R6); a transformed parameter keeps the model density: transforms are dispatched and wired as C14 demands; tuning state is frozen outside adaptation epochs (C11.R4); the accept/reject step is exact (C05); the proposal corrections are the true density ratios (C06); blockwise composition keeps the state coherent (C09); the Gibbs kernels draw from the full conditional (C13); every transition of a chunk gets its own key and the current epoch state (C07.R3).")
